@@ -159,7 +159,7 @@ var MutationFields = map[string][]string{
 	"TransferToChainEvent":      {"coin", "amount", "fee", "fee_neg", "sender", "sender_0X", "receiver", "receiver_bare", "dest_chain", "height", "height_hi", "tx_hash", "type", "shift_coin_amount", "shift_dec_first", "shift_dec_last", "shift_amount_fee"},
 	"SendToHubEvent":            {"coin", "amount", "sender", "receiver", "height", "height_hi", "tx_hash", "type", "shift_coin_amount", "shift_dec_first", "shift_dec_last"},
 	"BatchExecutedEvent":        {"coin", "batch_nonce", "batch_nonce_hi", "height", "height_hi", "tx_hash", "fee_paid", "fee_paid_neg", "fee_payer", "type"},
-	"SignerSetTxExecutedEvent":  {"set_nonce", "set_nonce_hi", "height", "height_hi", "tx_hash", "member_addr", "member_power", "member_power_hi", "type"},
+	"SignerSetTxExecutedEvent":  {"set_nonce", "set_nonce_hi", "height", "height_hi", "tx_hash", "member_addr", "member_last_addr", "member_zero", "member_power", "member_power_hi", "type"},
 	"ContractCallExecutedEvent": {"scope", "inval_nonce", "inval_nonce_hi", "height", "height_hi", "tx_hash", "type"},
 }
 
@@ -395,6 +395,26 @@ func (w *World) Mutate(chain string, ev mhub2types.ExternalEvent, mut string) mh
 				return nil
 			}
 			c.Members[0].ExternalAddress = flipHexChar(c.Members[0].ExternalAddress, len(c.Members[0].ExternalAddress)-1)
+		case "member_last_addr": // the least powerful member is somebody else
+			if len(c.Members) < 2 {
+				return nil
+			}
+			ms := make([]*mhub2types.ExternalSigner, len(c.Members))
+			for i, m := range c.Members {
+				x := *m
+				ms[i] = &x
+			}
+			l := ms[len(ms)-1]
+			l.ExternalAddress = flipHexChar(l.ExternalAddress, len(l.ExternalAddress)-1)
+			c.Members = ms
+		case "member_zero": // one more member, without any power (the hub publishes such members for dust stakes)
+			ms := make([]*mhub2types.ExternalSigner, 0, len(c.Members)+1)
+			for _, m := range c.Members {
+				x := *m
+				ms = append(ms, &x)
+			}
+			ms = append(ms, &mhub2types.ExternalSigner{Power: 0, ExternalAddress: "0x00000000000000000000000000000000000000e1"})
+			c.Members = ms
 		case "member_power":
 			if len(c.Members) == 0 {
 				return nil
